@@ -114,6 +114,13 @@ def run(F, rep, tier):
     c03.accept(F, rep, "CHECKER-AGREES")
     import c07
     c07.guard_discipline(F, rep)
+    # the operator the program wrote is the one the runtime applies, to the evaluated operands: no arm of the lowering computes
+    # an operator itself for some operands
+    import core
+    import c01
+    import irp
+    core.borrow(rep, lambda F_, r_: c01.pipe_rules(F_, r_, irp.Tables(F_)),
+                lambda o: o["rule"] == "PIPE" and o["key"].startswith(("lowering|", "emission|")), F)
 
 
 def arith(rep, mf, F=None):
